@@ -1,4 +1,5 @@
 import Pxv.Lemmas.Lifecycle
+import Pxv.Lemmas.Transient
 /-!
 C03 — constructor lifecycles are honoured at run time.
 
@@ -311,5 +312,30 @@ theorem singleton_once (lk : Nat → Option CDef) (fuel : Nat) (needed : List Na
   refine ⟨dedup_unique lk [] .singleton (by decide) fuel _, ?_⟩
   intro n hn
   rcases nodes_lifecycle _ _ _ _ _ n hn with h1 | ⟨h1, _⟩ <;> rw [h1] <;> decide
+
+/-- **transients are never shared**: in the call graph of a closure every node of a transient
+    constructor feeds at most one input — of the component or of another node. -/
+theorem transient_never_shared (lk : Nat → Option CDef) (hu : UidInj lk) (pre : List Nat) (once : Life)
+    (fuel : Nat) (ins : List (Nat × Mode)) (i : Nat)
+    (ht : (closureOf lk pre once fuel ins).1.transientAt i) :
+    refs i ((closureOf lk pre once fuel ins).1.inner ++ (closureOf lk pre once fuel ins).2) ≤ 1 := by
+  have hs := foldRes_step lk _ (resolve_step lk hu pre once fuel) ins {} ⟨by simp, by simp [Closure.inner]⟩
+  exact hs.newT i (by simp) ht
+
+
+/-- **one construction per injection site**: every time the traversal meets an input whose
+    constructor is transient it adds a brand-new node for it. -/
+theorem transient_per_site (lk : Nat → Option CDef) (hu : UidInj lk) (pre : List Nat) (once : Life) (f : Nat)
+    (cl : Closure) (hg : Good lk cl) (ty : Nat) (m : Mode) (c : CDef) (hl : lk ty = some c)
+    (ht : c.life = .transient) :
+    ∃ k n, (resolve lk pre once (f + 1) cl (ty, m)).2 = .built k ∧ cl.nodes.length ≤ k ∧
+      (resolve lk pre once (f + 1) cl (ty, m)).1.nodes[k]? = some n ∧ n.ctor = c := by
+  have hs := foldRes_step lk _ (resolve_step lk hu pre once f) c.ins cl hg
+  obtain ⟨new, hn⟩ := hs.ext
+  simp only [resolve, hl, ht, beq_self_eq_true, if_true]
+  refine ⟨_, ⟨c, (foldRes (resolve lk pre once f) cl c.ins).2⟩, rfl, ?_, ?_, rfl⟩
+  · rw [hn]; simp
+  · simp [Closure.push]
+
 
 end Pxv.Life
